@@ -410,18 +410,51 @@ pub fn run_c16(ctx: &Ctx, rep: &mut Report) {
     let mut root = Rng::new(ctx.seed).fork(0xC16 + ctx.shard as u64);
     for i in 0..n {
         let mut rng = root.fork(i as u64);
-        let pats = shaped_patterns(&mut rng, i * ctx.nshards + ctx.shard);
+        // Every fourth list is aimed at a confirming prefilter (packed /
+        // memmem) and closed under "Q = suffix of a proper prefix of P" and
+        // "R = Q + one more byte": with such a prefilter the built-in search
+        // returns the prefilter's answer while the recipe walks the automaton,
+        // so the two only agree if the automaton itself is right.
+        let directed = i % 4 == 3;
+        let pats = if directed {
+            let (mut p, _) = crate::meta::prefilter_patterns(&mut rng);
+            p.retain(|q| !q.is_empty() && q.len() <= 40);
+            for _ in 0..rng.range(1, 3) {
+                if let Some(src) = p.iter().filter(|q| q.len() >= 3).nth(0).cloned() {
+                    let a = rng.range(1, src.len() - 2);
+                    let b = rng.range(a + 1, src.len() - 1);
+                    let q = src[a..b].to_vec(); // suffix of the proper prefix src[..b]
+                    let mut r = q.clone();
+                    r.push(*rng.pick(b"xyzq"));
+                    if rng.chance(1, 2) {
+                        p.push(r);
+                        p.push(q);
+                    } else {
+                        p.push(q);
+                        p.push(r);
+                    }
+                }
+            }
+            if p.is_empty() {
+                p.push(b"ab".to_vec());
+            }
+            p
+        } else {
+            shaped_patterns(&mut rng, i * ctx.nshards + ctx.shard)
+        };
         let alpha: Vec<u8> = {
             let mut a: Vec<u8> = pats.iter().flat_map(|p| p.iter().copied()).take(6).collect();
             a.push(b'a');
+            a.extend_from_slice(b"xq");
             a
         };
         let nh = ctx.tier.pick(2, 6, 10);
         let hays: Vec<Vec<u8>> =
             (0..nh).map(|_| gen::haystack(&mut rng, &pats, &alpha, 40)).collect();
         for &kind in &Kind::ALL {
-            let ci = rng.chance(1, 5);
+            let ci = !directed && rng.chance(1, 5);
             for cfg in low_cfgs_for_walk(&mut rng, kind, ci) {
+                let cfg = if directed { cfg.pre(true) } else { cfg };
                 c16_check_one(rep, &pats, &cfg, &hays);
             }
         }
